@@ -43,6 +43,9 @@ def program():
         "fa/1": [clause(C("fa", X), call(C("findall", Y, C("down", Y), X)))],
         "mix/2": [clause(C("mix", X, Y), conj(call(C("flat", X)), call(C("down", Y))))],
         "wide/2": [clause(C("wide", A("done"), V(0)), call(C("=", V(0), V(0)))), clause(C("wide", A("again"), V(900)))],
+        "go/1": [clause(C("go", X), and_(call(A("c1")), call(C("first", X)))), clause(C("go", A("last")))],
+        "c1/0": [clause(A("c1"), call(A("c2")))], "c2/0": [clause(A("c2"), call(A("c3")))], "c3/0": [clause(A("c3"), call(A("c4")))],
+        "c4/0": [clause(A("c4"), call(A("c5")))], "c5/0": [clause(A("c5"), call(A("c6")))], "c6/0": [clause(A("c6"), call(A("ok")))],
     }
 
 
@@ -59,6 +62,8 @@ def queries(tier):
     # against a DYNAMIC fact item(done, _) (asserted before the query): facts are matched by unify_arrays,
     # argument by argument, and the second argument needs depth while the first has already bound X
     L.append((C("item", V(0), s(60)), 1, 0))
+    # the deepest point of the search is a lookup of dynamic facts (ok, first/1 are asserted, not compiled)
+    L.append((C("go", V(0)), 1, 0))
     return L
 
 
@@ -82,6 +87,9 @@ def record_runs(scn, refs, tier, seed):
         yp.load_script_from_string(code)
         if goal["n"] == "item":
             yp.assert_fact(yp.atom("item"), [yp.atom("done"), yp.variable()])
+        if goal["n"] == "go":
+            yp.assert_fact(yp.atom("ok"), [])
+            yp.assert_fact(yp.atom("first"), [yp.atom("one")])
         env = {}
         vs = [real.build(yp, {"t": "v", "id": i}, env) for i in range(qnv)]
         args = [real.build(yp, a, env) for a in goal.get("a", [])]
@@ -160,7 +168,7 @@ def record_runs(scn, refs, tier, seed):
         # infinite searches: keep the limit low enough that the result stays within the known prefix
         hi = d0 + (need + 40 if need is not None else 60)
         # structure unifications (several argument pairs, an early one binding a variable): every limit
-        limits = list(range(d0 + 5, hi, 1 if goal["n"] in ("wide", "app", "item") else step))
+        limits = list(range(d0 + 5, hi, 1 if goal["n"] in ("wide", "app", "item", "go") else step))
         rps = [0, 1, 2, max(len(answers), 1)]
         for L in limits:
             for ra in (rps if tier == "thorough" else [rps[(L // step) % len(rps)], 0]):
@@ -203,6 +211,8 @@ def family(chk, tier, seed, only=None):
     scns = []
     for i, (g, qnv, k) in enumerate(qs):
         pre = [[{"op": "assert", "e": 1, "term": C("item", A("done"), V(0)), "atEnd": True, "r": 0}]] if g["n"] == "item" else []
+        if g["n"] == "go":
+            pre = [[{"op": "assert", "e": 1, "term": A("ok"), "atEnd": True, "r": 0}], [{"op": "assert", "e": 1, "term": C("first", A("one")), "atEnd": True, "r": 0}]]
         scns.append({"scripts": {"P": program()}, "steps": [steps[0]] + pre + [[{"op": "solve", "e": 1, "r": 1, "goal": g, "qnv": qnv, "k": k}]], "keys": []})
     recs, results = chk.machine_family("reference-searches", scns, max_steps=None)
     by_id = {r["id"]: r for r in recs}
